@@ -74,6 +74,23 @@ func (o *indexOracle) check(n *simNode, ev string) bool {
 		}
 		cur[i] = h
 		holders[h] = true
+		if h.localIndexId != i {
+			rc.Fail("index-mismatch", "node %d after %s: local index %d is registered to a tunnel (%v) whose own local index is %d", n.idx, ev, i, h.vpnAddrs, h.localIndexId)
+			return false
+		}
+	}
+	// every tunnel still reachable by address must own its index: two live tunnels never share one
+	for _, a := range sortedAddrs(hm.Hosts) {
+		for _, h := range hm.unlockedGetHostList(a) {
+			if owner := hm.Indexes[h.localIndexId]; owner != h {
+				ov := "nobody"
+				if owner != nil {
+					ov = fmt.Sprint(owner.vpnAddrs, " remote index ", owner.remoteIndexId)
+				}
+				rc.Fail("index-not-owned", "node %d after %s: the tunnel serving %v (remote index %d) carries local index %d, which is registered to %s", n.idx, ev, a, h.remoteIndexId, h.localIndexId, ov)
+				return false
+			}
+		}
 	}
 	for _, i := range sortedU32(hs.indexes) {
 		hh := hs.indexes[i]
